@@ -2,7 +2,7 @@
 """Run checks against a seeded change WITHOUT touching /repo: the patch is applied in a scratch
 worktree and the changed files are substituted with `go build -overlay`.
 usage: tools_seed.py <patch.diff> <CHECK_ID>[,<CHECK_ID>...] [quick|thorough]
-(Checks that build their own overlay (SCHED) cannot be combined with this; for those apply the patch
+(SEED_KEEP=1 keeps the private root with replays/evidence. Checks that build their own overlay (SCHED) cannot be combined with this; for those apply the patch
 to /repo itself as the brief describes: git -C /repo apply … ; ./vcheck … ; git -C /repo checkout -- .)"""
 import sys, os, subprocess, json, tempfile, shutil, re
 patch=os.path.abspath(sys.argv[1]); ids=sys.argv[2].split(','); tier=sys.argv[3] if len(sys.argv)>3 else 'quick'
@@ -22,13 +22,19 @@ try:
     ov=os.path.join(wt,'.seed_overlay.json'); json.dump({'Replace':rep},open(ov,'w'))
     root='/verif/.work/seedroot-%d'%os.getpid(); shutil.rmtree(root,ignore_errors=True); os.makedirs(root)
     shutil.copy('/verif/known_findings.txt',root)
-    env=dict(os.environ,VERIF_EXTRA_BUILDFLAGS='-overlay '+ov,VERIF_MUT_ROOT=root)
+    env=dict(os.environ,VERIF_EXTRA_BUILDFLAGS='-overlay '+ov,VERIF_VNODE_BUILDFLAGS='-overlay '+ov,VERIF_MUT_ROOT=root)
     for id in ids:
         r=subprocess.run(['/verif/vcheck',id,tier],env=env,capture_output=True,text=True)
         viol=[l for l in r.stdout.split('\n') if l.startswith('VIOLATION') or l.startswith('   sig')]
         print(f'== {id} {tier}: exit {r.returncode}; {len([v for v in viol if v.startswith("VIOLATION")])} violation lines')
         for v in viol[:8]: print('   ',v[:300])
         if r.returncode not in (0,1): print(r.stderr[-1500:])
-    print('artefacts (if any) under',root,'- remove when done')
+    if os.environ.get('SEED_KEEP'):
+        print('artefacts (if any) under',root,'- remove THIS directory (only this one) when done')
+    else:
+        shutil.rmtree(root,ignore_errors=True)
 finally:
     subprocess.call(['git','-C','/repo','worktree','remove','--force',wt])
+    for d in os.listdir('/verif/.work'):
+        b=os.path.join('/verif/.work',d,'bin-mut-seedroot-%d'%os.getpid())
+        if os.path.exists(b): os.remove(b)
